@@ -2,11 +2,15 @@
    Statements only; proofs in proofs/ParserLife.v.  Same model as C02 (tables translated
    from ansi/parser.go on every run).  Time is abstracted to "segments": the bytes of one
    segment arrive promptly, consecutive segments are separated by silence longer than the
-   escape timer (the real-time race between the timer body and the read loop is outside
-   the model: partial, see DESIGN.md section 9). *)
+   escape timer.  The race between the timer's callback (a goroutine of its own, which
+   time.Timer.Stop cannot stop once it has started) and the read loop is modelled separately
+   (model/ParserRace.v): the callback of any timer armed so far may run at ANY later moment -
+   after further runes were handled, after the end marker was sent and the channel closed - and
+   the C08_race_* theorems below hold for every such schedule.  What stays outside: the
+   value of the delay (10 ms is only translated), the Go scheduler and memory model. *)
 From Vx Require Import base.Prelude model.ParserTypes gen.GenParser model.Parser model.Vt500Spec
-  model.ParserCheck model.ParserOwnTypes gen.GenOwn model.ParserOwn
-  proofs.ParserTable proofs.ParserConform proofs.ParserLife proofs.ParserOwnProofs.
+  model.ParserCheck model.ParserOwnTypes gen.GenOwn model.ParserOwn model.ParserRace
+  proofs.ParserTable proofs.ParserConform proofs.ParserLife proofs.ParserOwnProofs proofs.ParserRaceProofs.
 
 (* For every input, every way it is cut by silences, ending at any point (the stream given
    IS the stream up to the point where the reader ended or failed): the parser delivers
@@ -75,6 +79,86 @@ Example C08_reslice_after_emit_rejected :
   (let '(s1, _, _) := run_fn oinit [OAlias KOsc; OEmit; OReplace KOsc Reslice] [] in
    write_safe s1 (OWrite KOsc)) = false.
 Proof. vm_compute. split; reflexivity. Qed.
+
+(* ---------------------------------------------------------------- the timer under every schedule
+
+   [r_run code_guarded es]: the parser, the run loop's end and the timer callbacks executed in the
+   order [es] - runes, end of input (REof) or Close (RClose), and RFire = "the callback of some
+   timer armed earlier runs now", in any order and number.  [code_guarded] is the conjunction of
+   three facts the translator reads off ansi/parser.go on every run: the callback takes p.mu and
+   returns at once unless p.escPending is set and the parser has not finished; Parser.run clears
+   p.escPending under p.mu before it handles a rune; and it clears it and marks the parser
+   finished under p.mu before it emits the end marker.  (The first statement is the proof
+   obligation that breaks when the code loses one of them.) *)
+Theorem C08_timer_protocol_translated : code_guarded = true.
+Proof. exact code_is_guarded. Qed.
+Print Assumptions C08_timer_protocol_translated.
+
+(* the parser never panics: no schedule makes anything send on the closed channel *)
+Theorem C08_race_never_sends_after_close : forall es : list revent,
+  rbad (r_run code_guarded es) = false.
+Proof. exact race_never_sends_after_close. Qed.
+Print Assumptions C08_race_never_sends_after_close.
+
+(* exactly one end marker, as the last item, under every schedule; none while the run loop is
+   still going *)
+Theorem C08_race_one_eof_last : forall es : list revent,
+  let s := r_run code_guarded es in
+  (rfin s = false -> Forall (fun i => is_eof i = false) (rout s)) /\
+  (rfin s = true -> exists body, rout s = body ++ [IEof] /\ Forall (fun i => is_eof i = false) body).
+Proof. exact race_one_eof_last. Qed.
+Print Assumptions C08_race_one_eof_last.
+
+(* ... and whatever is still scheduled after the end changes nothing *)
+Theorem C08_race_end_is_final : forall es es' : list revent,
+  rfin (r_run code_guarded es) = true ->
+  rout (r_run code_guarded (es ++ es')) = rout (r_run code_guarded es).
+Proof. exact race_end_is_final. Qed.
+Print Assumptions C08_race_end_is_final.
+
+(* every schedule is read sequentially: a callback that runs is exactly [timer_fire] of the
+   theorems above (it reports Escape only while the ESC is still the last thing read), and
+   nothing happens after the end *)
+Theorem C08_race_is_sequential : forall es : list revent,
+  rout (r_run code_guarded es) = qout (q_run es) /\ rp (r_run code_guarded es) = qp (q_run es).
+Proof. exact race_is_sequential. Qed.
+Print Assumptions C08_race_is_sequential.
+
+(* "an ESC promptly followed by further bytes is never reported as Escape", however late the
+   callback of its timer runs: once the next rune has been handled the callback is a no-op, and
+   the rune is not lost *)
+Theorem C08_race_late_callback_is_noop : forall (es : list revent) (r : Z),
+  r <> 27 ->
+  let s1 := r_run code_guarded (es ++ [RRune r]) in
+  let s2 := r_run code_guarded (es ++ [RRune r; RFire]) in
+  rp s2 = rp s1 /\ rout s2 = rout s1 /\ rbad s2 = false.
+Proof. exact race_late_fire_is_noop. Qed.
+Print Assumptions C08_race_late_callback_is_noop.
+
+(* the segment semantics used by every theorem above (and by C02) is the schedule "runes of a
+   segment, one callback between two segments, end of input" *)
+Theorem C08_segments_are_a_schedule : forall segs : list (list Z),
+  canon (rout (r_run code_guarded (seg_events segs ++ [REof]))) = parse_segments segs.
+Proof. exact race_segments. Qed.
+Print Assumptions C08_segments_are_a_schedule.
+
+(* the guard is needed.  The callback as it was before the fix (emit outside the mutex,
+   unconditionally): ESC, Close, late callback sends on the closed channel - the Go panic
+   "send on closed channel", reproduced on the real parser (KNOWN_FINDINGS fixed: esc-timer-race);
+   and a callback that runs after the "[" of ESC [ A turns the sequence into Escape, "A". *)
+Theorem C08_unguarded_timer_refuted :
+  rbad (r_run false [RRune 27; RClose; RFire]) = true /\
+  rout (r_run false [RRune 27; RRune 91; RFire; RRune 65]) = [IC0 27; IPrint [65]] /\
+  rout (r_run code_guarded [RRune 27; RRune 91; RFire; RRune 65]) = [ICsi [] [] 65].
+Proof. vm_compute. repeat split; reflexivity. Qed.
+Print Assumptions C08_unguarded_timer_refuted.
+
+(* non-vacuity: a schedule with two armed timers, one effective callback, a late one, the end,
+   and a callback after the end *)
+Example C08_race_example :
+  rout (r_run code_guarded [RRune 27; RRune 27; RFire; RRune 120; RFire; REof; RFire]) =
+    [IC0 27; IPrint [120]; IEof].
+Proof. vm_compute. reflexivity. Qed.
 
 Example C08_example :
   parse_segments [[27; 93; 97; 27]; [92; 120]] = [IOsc [97]; IC0 27; IPrint [92; 120]; IEof].
